@@ -221,19 +221,32 @@ func init() {
 			}
 			// drain edge
 			pop := c.Fn("Association.popPendingDataChunksToSend")
-			nb := c.Fn("Association.notifyBlockWritable")
-			for _, nc := range callsIn(pop, nb) {
-				c.Dom("drain-notifies:blocking", nc, BoolCond(IsLoadOf(bw), true), "a.blockWrite")
-				c.Dom("drain-notifies:empty", nc, CmpCond(token.EQL, IsCallOf(c.Fn("pendingQueue.size")), IsConstInt(0)), "pendingQueue.size() == 0")
+			// the drain notification: a non-blocking send on writeNotify with writePending cleared, in pop itself or in a helper it calls
+			wn = c.field("Association", "writeNotify")
+			var notifySends []ssa.Instruction
+			for _, g := range append([]*ssa.Function{pop}, calleesOneLevel(c.P, pop)...) {
+				forEachInstr(g, func(in ssa.Instruction) {
+					if sel, ok := in.(*ssa.Select); ok && !sel.Blocking {
+						for _, st := range sel.States {
+							if st.Dir == types.SendOnly && IsLoadOf(wn)(st.Chan) {
+								notifySends = append(notifySends, in)
+							}
+						}
+					}
+				})
 			}
-			c.Check(len(callsIn(pop, nb)) == 1, "drain-notifies", c.P.Pos(pop.Pos()), "the writer notifies blocked writers when the pending queue drains", "no drain notification")
-			okClr := false
-			for _, a := range c.storesIn(nb, wp) {
-				if IsConstBool(false)(a.Val) {
-					okClr = true
+			c.Check(len(notifySends) == 1, "drain-notifies", c.P.Pos(pop.Pos()), "the writer notifies blocked writers when the pending queue drains", fmt.Sprintf("%d drain notification sites", len(notifySends)))
+			for _, ns := range notifySends {
+				c.Dom("drain-notifies:blocking", ns, BoolCond(IsLoadOf(bw), true), "a.blockWrite")
+				c.Dom("drain-notifies:empty", ns, CmpCond(token.EQL, IsCallOf(c.Fn("pendingQueue.size")), IsConstInt(0)), "pendingQueue.size() == 0")
+				okClr := false
+				for _, a := range c.storesIn(ns.Parent(), wp) {
+					if IsConstBool(false)(a.Val) && (InstrDominates(a.Instr, ns) || a.Instr.Block() == ns.Block()) {
+						okClr = true
+					}
 				}
+				c.Check(okClr, "notify-lowers-gate", c.Pos(ns), "the notification clears writePending", "the drain notification does not clear writePending")
 			}
-			c.Check(okClr, "notify-lowers-gate", c.P.Pos(nb.Pos()), "notifyBlockWritable clears writePending", "notifyBlockWritable does not clear writePending")
 			ub := c.Fn("Association.unblockPendingWrites")
 			okU := false
 			for _, a := range c.storesIn(ub, wp) {
@@ -310,10 +323,12 @@ func init() {
 		Title:   "the read-deadline goroutine only records the deadline error (if none is set) and wakes the reader; it never touches queued data",
 		MinInst: 3,
 		Run: func(c *RuleCtx) {
-			g := c.P.Fn("Stream.SetReadDeadline$1")
-			if g == nil {
-				panic(unresolved{"Stream.SetReadDeadline$1"})
+			// the goroutine SetReadDeadline starts (a closure, or a method it was moved to)
+			gs := goTargetsIn(c.Fn("Stream.SetReadDeadline"))
+			if len(gs) != 1 {
+				panic(unresolved{"the goroutine started by Stream.SetReadDeadline"})
 			}
+			g := gs[0]
 			re := c.field("Stream", "readErr")
 			rtc := c.field("Stream", "readTimeoutCancel")
 			allowed := map[*types.Var]bool{re: true, rtc: true}
@@ -346,3 +361,21 @@ func init() {
 }
 
 var ks18 = keyer{}
+
+// calleesOneLevel: in-package functions statically called from fn.
+func calleesOneLevel(p *Prog, fn *ssa.Function) []*ssa.Function {
+	seen := map[*ssa.Function]bool{}
+	var out []*ssa.Function
+	forEachInstr(fn, func(in ssa.Instruction) {
+		if ci, ok := in.(ssa.CallInstruction); ok {
+			if _, isGo := in.(*ssa.Go); isGo {
+				return
+			}
+			if sc := ci.Common().StaticCallee(); sc != nil && p.inPkg(sc) && sc.Blocks != nil && !seen[sc] {
+				seen[sc] = true
+				out = append(out, sc)
+			}
+		}
+	})
+	return out
+}
